@@ -128,7 +128,19 @@ type c01Case struct {
 }
 
 func c01SimpleCond(rng *rand.Rand, m *markerGen) condForm {
-	switch rng.Intn(5) {
+	switch rng.Intn(9) {
+	case 7:
+		a := m.S()
+		return condForm{"clause.IN{1 value}", clause.IN{Column: "name", Values: []interface{}{a}}, nil, []interface{}{a}}
+	case 8:
+		a := m.I()
+		return condForm{"map{age: []int{1}}", map[string]interface{}{"age": []int{a}}, nil, []interface{}{a}}
+	case 5:
+		a, b, c := m.I(), m.I(), m.I()
+		return condForm{"age IN (?) []int{3}", "age IN (?)", []interface{}{[]int{a, b, c}}, []interface{}{a, b, c}}
+	case 6:
+		a, b, c := m.S(), m.S(), m.S()
+		return condForm{"name IN (@ns) []string{3}", "name IN (@ns)", []interface{}{sql.Named("ns", []string{a, b, c})}, []interface{}{a, b, c}}
 	case 0:
 		s := m.S()
 		return condForm{"name <> ?", "name <> ?", []interface{}{s}, []interface{}{s}}
@@ -612,6 +624,42 @@ func init() {
 					Expected: map[string]interface{}{"verdict": v.Bad, "expected": c.Expect}})
 			}
 		}
+	}
+	// dedicated probe of finding F21: a `?` whose positional slot is a sql.NamedArg
+	probeF21 := func(r *Result, dialect string) {
+		db, rec := c01OpenSqlite(dialect)
+		m := &markerGen{}
+		s, i := m.S(), m.I()
+		c := &c01Case{Fin: "Find", M: m, Desc: []string{`Where("name = @n AND age = ?", sql.Named("n", s), i)`},
+			Expect: []c01Expect{{"SELECT", normArgs([]interface{}{s, i})}},
+			Run: func(d *gorm.DB) *gorm.DB {
+				var us []VUser
+				return d.Model(&VUser{}).Where("name = @n AND age = ?", sql.Named("n", s), i).Find(&us)
+			}}
+		v := c01Judge(db, rec, dialect, c)
+		r.Case("e2e-probe-F21", dialect, true)
+		if v.Bad == "" {
+			r.Note("F21 no longer reproduces under %s: %v", dialect, v.Stmts)
+			return
+		}
+		what := fmt.Sprintf("named+positional mix: %s; statement %q", v.Bad, v.Stmts)
+		if listed("F21-C01-named-arg-in-positional-slot") {
+			r.KnownFinding("F21-C01-named-arg-in-positional-slot", what)
+		} else {
+			r.Violate(Violation{Kind: "e2e", Suite: "e2e-probe-F21", Input: map[string]interface{}{"dialect": dialect},
+				Observed: map[string]interface{}{"statements": v.Stmts, "err": v.Err}, Expected: map[string]interface{}{"verdict": v.Bad, "expected": c.Expect}})
+		}
+	}
+	register("C01", func(r *Result, rng *rand.Rand, tier string) {
+		probeF21(r, "qmark")
+		probeF21(r, "dollar")
+	})
+	replayers["C01/e2e-probe-F21"] = func(r *Result, input json.RawMessage) {
+		var in struct {
+			Dialect string `json:"dialect"`
+		}
+		_ = json.Unmarshal(input, &in)
+		probeF21(r, in.Dialect)
 	}
 	register("C01", func(r *Result, rng *rand.Rand, tier string) {
 		n := 700
